@@ -334,14 +334,16 @@ theorem later_changes_do_not_alter_others (s : RState) (op : ROp) (k : Nat)
   case setNil i => exact getSlot_set_ne _ _ _ _ h
 
 /-! non-vacuity: the hypotheses are met by a non-trivial state -/
-example : NodupAll [some { errors := ["a", "b"], warnings := ["w"], mc := 3 }, none, some {}] := by
+private def m (t : String) : Msg := { tag := t }
+
+example : NodupAll [some { errors := [m "a", m "b"], warnings := [m "w"], mc := 3 }, none, some {}] := by
   intro r hr
   simp at hr
-  rcases hr with rfl | rfl <;> simp
+  rcases hr with rfl | rfl <;> simp [m]
 
-example : rrun [some { errors := ["a"] }, some { errors := ["a", "b"], warnings := ["w"], mc := 2 }]
-    [.merge 0 [1, 0], .addErrors 1 [none, some "z"]]
-    = [some { errors := ["a", "b"], warnings := ["w"], mc := 4 },
-       some { errors := ["a", "b", "z"], warnings := ["w"], mc := 2 }] := by decide
+example : rrun [some { errors := [m "a"] }, some { errors := [m "a", m "b"], warnings := [m "w"], mc := 2 }]
+    [.merge 0 [1, 0], .addErrors 1 [none, some (m "z")]]
+    = [some { errors := [m "a", m "b"], warnings := [m "w"], mc := 4 },
+       some { errors := [m "a", m "b", m "z"], warnings := [m "w"], mc := 2 }] := by decide
 
 end VM.C20
